@@ -897,6 +897,7 @@ func (self *Pipestance) Lock() error {
 	if err := self.metadata.WriteTime(Lock); err != nil {
 		util.LogError(err, "runtime", "Error writing pipestance lock file.")
 	}
+	verifEvent("Lock", "path", self.GetPath())
 	return nil
 }
 
@@ -904,6 +905,7 @@ func (self *Pipestance) unlock() {
 	if err := self.metadata.remove(Lock); err != nil {
 		util.LogError(err, "runtime", "Error removing pipestance lock file.")
 	}
+	verifEvent("Unlock", "path", self.GetPath())
 }
 
 func (self *Pipestance) Unlock() {
